@@ -12,6 +12,7 @@
               plen      `am.PrefixLength` (uint8)
               flags     `am.Attributes.Flags` (uint32, the IFA_FLAGS attribute)
               valid     `am.Attributes.CacheInfo.Valid` (uint32, seconds)
+              loc       `am.Attributes.Local` (not read by the source)
     RouteMsg  isRoute, family, dst (`netip.AddrFromSlice(rm.Attributes.Dst)`), dlen
               (`rm.DstLength`), oif (`rm.Attributes.OutIface`), pref (`rm.Attributes.Pref`)
 
@@ -56,6 +57,10 @@ structure AddrMsg where
   plen : Nat := 64
   flags : Nat := 0
   valid : Nat := 0
+  /-- `am.Attributes.Local` (IFA_LOCAL) when the message carries one: for an address configured
+      with a peer (`ip addr add A peer B/len`) the kernel sends the peer `B` as IFA_ADDRESS and the
+      interface's own address `A` as IFA_LOCAL. The source never looks at it (finding F-28). -/
+  loc : Option IP := none
 deriving DecidableEq, Repr, Inhabited
 
 /-- `!ok || !ip.Is6() || ip.Is4In6()`, negated -/
